@@ -4,7 +4,8 @@
   stand-in `advanceMember` used by the segment theorems: `advanceHeadFront_one`; instantiated for a member head of an and-clause:
   `advanceHeadFront_member`.  On a LIST of heads (the loop with its `actionable` accumulator and the final filter):
   `advanceHeadFront_chain` (generic, over a chain of `AdvStep`s), `advanceHeadFront_members` (all matching member heads of an and-clause:
-  = `runMembers`, returns the heads that are MERGING afterwards), `and_clause_phase1_real` (phase 1 of GroupVM through the real function).
+  = `runMembers`, returns the heads that are MERGING afterwards), `and_clause_phase1_real` (phase 1 of GroupVM through the real function); the same for the branch heads of an or-group of single atoms:
+  `advStep_branch`, `advanceHeadFront_branches`, `or_group_phase1_real` (every matching branch head ends MERGING and is handed back).
 -/
 import NemoVerif.Lemmas.GroupCoreVMMirror
 set_option linter.unusedSimpArgs false
@@ -474,5 +475,189 @@ theorem and_clause_phase1_real (fuel : Nat) (s : VM) (f : FUid) (i : Inst) (x : 
   have ei : i1 = i2 := Option.some.inj (F1.hi.symm.trans F2.hi)
   subst ei
   exact ⟨s1, i1, hreal, F2, hr2, hv2⟩
+
+open NemoVerif.GroupVM (Br p1Brs)
+
+/-! ### the branch heads of an or-group of single atoms through the real function -/
+
+/-- a branch head of an or-group (clause = one atom): its `AdvStep` (it always ends MERGING), and the heads afterwards -/
+theorem advStep_branch (fuel : Nat) (s : VM) (f : FUid) (h : HUid) (i : Inst) (x : InstX) (cfg : FlowCfg) (hd : Head)
+    (l u : String) (pe : Nat)
+    (H : HeadAt s f h i x cfg hd) (hown : x.ctxOwner = none) (hact : hd.status = .active) (hstarted : i.status = .started)
+    (C : OrShape cfg l u pe)
+    (hgoto : cfg.elements[hd.pos + 1]! = .goto (.lit (.bool true)) l) (hlt : hd.pos + 1 < pe + 1)
+    (hnd : ((hview i).map (·.1)).Nodup) (hrange : ∀ o ∈ i.heads, o.pos < cfg.elements.size) :
+    ∃ s' i', AdvStep (fuel + 2) f x cfg h s s' true ∧
+      advanceMember (fuel + 2) f h s = .ok [] s' ∧
+      FlowAt s' f i' x cfg ∧ s'.r = s.r ∧ i'.status = .started ∧ (∀ o ∈ i'.heads, o.pos < cfg.elements.size) ∧
+      ((hview i').map (·.1)).Nodup ∧
+      hview i' = (hview i).map (setCore h (pe + 1) .merging) := by
+  have hsz := C.hsize
+  obtain ⟨s', i', hadv, F', hr', hv', hst'⟩ := advanceBranch_spec fuel s f h i x cfg hd l u pe H hown hact C hgoto hlt
+  have hmem := mem_hview_of_findHead i h hd H.hh
+  have hndv' : ((hview i').map (·.1)).Nodup := by
+    rw [hv', List.map_map]
+    have : ((fun (t : HCore) => t.1) ∘ setCore h (pe + 1) HeadStatus.merging) = fun t => t.1 := by
+      funext t; exact setCore_fst _ _ _ t
+    rw [this]; exact hnd
+  have hrange' : ∀ o ∈ i'.heads, o.pos < cfg.elements.size := by
+    intro o ho
+    have hmo : (o.uid, o.pos, o.status) ∈ hview i' := by simp only [hview, List.mem_map]; exact ⟨o, ho, rfl⟩
+    rw [hv'] at hmo
+    obtain ⟨t, ht, e⟩ := List.mem_map.1 hmo
+    simp only [hview, List.mem_map] at ht
+    obtain ⟨o0, ho0, rfl⟩ := ht
+    have h0 := hrange o0 ho0
+    simp only [setCore] at e; split at e <;> simp only [Prod.mk.injEq] at e <;> omega
+  have hi0 : ∀ s0, setHeadPos (f, h) (hd.pos + 1) s = .ok () s0 → ∃ i0, findInst s0.ixs.ix f = some i0 ∧ i0.status = .started := by
+    intro s0 h0
+    have hnm0 : NotMatchAt cfg (hd.pos + 1) := notMatchAt_of cfg (hd.pos + 1) _ (by omega) hgoto rfl
+    obtain ⟨hg0, h0'⟩ := setHeadPos_ok s f h i x cfg hd (hd.pos + 1) H.toFlowAt H.hh (by omega) hnm0
+    rw [h0'] at h0
+    cases h0
+    exact ⟨_, findInst_setPos s.ixs.ix f h i hd (hd.pos + 1) none H.hi H.hh (by omega), hstarted⟩
+  have hst'' : i'.status = .started := by rw [hst']; exact hstarted
+  refine ⟨s', i', ?_, hadv, F', hr', hst'', hrange', hndv', hv'⟩
+  have hmem' : (h, pe + 1, HeadStatus.merging) ∈ hview i' := by
+    rw [hv']; exact List.mem_map.2 ⟨_, hmem, by simp [setCore]⟩
+  obtain ⟨hd', hh', hp', hs'⟩ := findHead_of_mem_hview i' hndv' h (pe + 1) .merging hmem'
+  exact ⟨i, i', hd, hd', H, hact, hstarted, hadv, hi0, F', hh', by rw [hp']; exact hsz, hst'', hrange', by rw [hp', C.hm]; rfl,
+    by rw [hs']; decide, by rw [hs']; exact (decide_eq_true rfl).symm⟩
+
+/-- **CoreVM's `_advance_head_front` on the LIST of matching branch heads of an or-group of single atoms**: it is `runMembers`, every
+    head ends MERGING on the or-level `MergeHeads`, and all of them are handed back, in order. -/
+theorem advanceHeadFront_branches (fuel : Nat) (f : FUid) (x : InstX) (cfg : FlowCfg) (l u : String) (pe : Nat)
+    (hown : x.ctxOwner = none) (C : OrShape cfg l u pe) :
+    ∀ (hs : List HUid) (s : VM) (i : Inst), FlowAt s f i x cfg → i.status = .started →
+      (∀ o ∈ i.heads, o.pos < cfg.elements.size) → ((hview i).map (·.1)).Nodup → hs.Nodup →
+      (∀ h ∈ hs, ∃ p, (h, p, HeadStatus.active) ∈ hview i ∧ cfg.elements[p + 1]! = .goto (.lit (.bool true)) l ∧ p + 1 < pe + 1) →
+      ∃ s' i', advanceHeadFront (fuel + 3) (hs.map fun h => (f, h)) s = .ok (hs.map fun h => (f, h)) s' ∧
+        runMembers (fuel + 2) f hs s = .ok () s' ∧ FlowAt s' f i' x cfg ∧ s'.r = s.r ∧ i'.status = .started := by
+  have key : ∀ (hs : List HUid) (s : VM) (i : Inst), FlowAt s f i x cfg → i.status = .started →
+      (∀ o ∈ i.heads, o.pos < cfg.elements.size) → ((hview i).map (·.1)).Nodup → hs.Nodup →
+      (∀ h ∈ hs, ∃ p, (h, p, HeadStatus.active) ∈ hview i ∧ cfg.elements[p + 1]! = .goto (.lit (.bool true)) l ∧ p + 1 < pe + 1) →
+      ∃ s' i', AdvChain (fuel + 2) f x cfg hs s hs s' ∧
+        runMembers (fuel + 2) f hs s = .ok () s' ∧ FlowAt s' f i' x cfg ∧ s'.r = s.r ∧ i'.status = .started ∧
+        ((hview i').map (·.1)).Nodup ∧
+        (∀ t ∈ hview i, t.1 ∉ hs → t ∈ hview i') ∧ (∀ h ∈ hs, (h, pe + 1, HeadStatus.merging) ∈ hview i') := by
+    intro hs
+    induction hs with
+    | nil =>
+      intro s i F hst hr hnd _ _
+      exact ⟨s, i, AdvChain.nil s, by simp [runMembers, pure, EStateM.pure], F, rfl, hst, hnd, fun t ht _ => ht, fun _ hh => by cases hh⟩
+    | cons h hs ih =>
+      intro s i F hst hr hnd hnds hall
+      obtain ⟨p, hmem, hgoto, hlt⟩ := hall h (by simp)
+      obtain ⟨hd, hfh, hpos, hstat⟩ := findHead_of_mem_hview i hnd h p .active hmem
+      have hsz := C.hsize
+      have H : HeadAt s f h i x cfg hd :=
+        { hi := F.hi, hx := F.hx, hc := F.hc, hh := hfh, hlt := by rw [hpos]; omega, hst := by rw [hstat]; decide }
+      obtain ⟨s1, i1, st, hadv, F1, hr1, hst1, hrange1, hnd1, hv1⟩ := advStep_branch fuel s f h i x cfg hd l u pe H hown hstat hst C
+        (by rw [hpos]; exact hgoto) (by rw [hpos]; exact hlt) hnd hr
+      have hnds' := (List.nodup_cons.1 hnds)
+      have hkeep : ∀ t ∈ hview i, t.1 ≠ h → t ∈ hview i1 := by
+        intro t ht hne
+        rw [hv1]
+        exact List.mem_map.2 ⟨t, ht, by simp [setCore, hne]⟩
+      obtain ⟨s', i', hch, hrun, F', hr', hst', hnd', hkeep', hmg'⟩ := ih s1 i1 F1 hst1 hrange1 hnd1 hnds'.2 (by
+        intro h2 hh2
+        obtain ⟨p2, hm2, hg2, hl2⟩ := hall h2 (by simp [hh2])
+        exact ⟨p2, hkeep _ hm2 (fun (e : h2 = h) => hnds'.1 (e ▸ hh2)), hg2, hl2⟩)
+      have hmine : (h, pe + 1, HeadStatus.merging) ∈ hview i1 := by
+        rw [hv1]; exact List.mem_map.2 ⟨_, hmem, by simp [setCore]⟩
+      refine ⟨s', i', ?_, ?_, F', by rw [hr', hr1], hst', hnd', ?_, ?_⟩
+      · have hc := AdvChain.cons st hch
+        simpa using hc
+      · rw [runMembers_cons _ _ _ _ _ _ _ hadv]; exact hrun
+      · intro t ht hnot
+        have hne : t.1 ≠ h := fun e => hnot (by simp [e])
+        exact hkeep' t (hkeep t ht hne) (fun hm => hnot (by simp [hm]))
+      · intro h2 hh2
+        rcases List.mem_cons.1 hh2 with rfl | hh2
+        · exact hkeep' _ hmine hnds'.1
+        · exact hmg' h2 hh2
+  intro hs s i F hst hr hnd hnds hall
+  obtain ⟨s', i', hch, hrun, F', hr', hst', hnd', _, hmg'⟩ := key hs s i F hst hr hnd hnds hall
+  refine ⟨s', i', ?_, hrun, F', hr', hst'⟩
+  apply advanceHeadFront_chain (fuel + 2) f x cfg hs _ s s' hch
+  intro h hh
+  obtain ⟨hd', hh', _, hs'⟩ := findHead_of_mem_hview i' hnd' h (pe + 1) .merging (hmg' h hh)
+  exact ⟨i', hd', F'.hi, hh', by rw [hs']; decide⟩
+
+theorem matchingB_mem (e mg : Nat) : ∀ (us : List (HUid × Nat)) (bs : List Br) (h : HUid), h ∈ matchingB e us bs →
+    ∃ u ∈ us, u.1 = h ∧ (u.1, u.2, HeadStatus.active) ∈ renderB mg us bs := by
+  intro us
+  induction us with
+  | nil => intro bs h hh; cases bs <;> simp [matchingB] at hh
+  | cons u us ih =>
+    intro bs h hh
+    cases bs with
+    | nil => simp [matchingB] at hh
+    | cons b bs =>
+      have lift : h ∈ matchingB e us bs → ∃ u' ∈ u :: us, u'.1 = h ∧ (u'.1, u'.2, HeadStatus.active) ∈ renderB mg (u :: us) (b :: bs) := by
+        intro hh'
+        obtain ⟨u', hu', e1, hm⟩ := ih bs h hh'
+        exact ⟨u', List.mem_cons_of_mem _ hu', e1, by simp only [renderB, List.zipWith_cons_cons]; exact List.mem_cons_of_mem _ hm⟩
+      cases b with
+      | single a =>
+        by_cases hae : (a == e) = true
+        · simp only [matchingB, hae, if_true, List.mem_cons] at hh
+          rcases hh with rfl | hh
+          · exact ⟨u, by simp, rfl, by simp [renderB, brCore]⟩
+          · exact lift hh
+        · simp only [matchingB, hae, if_false] at hh
+          exact lift hh
+      | multi _ _ => exact lift (by simpa [matchingB] using hh)
+      | merging => exact lift (by simpa [matchingB] using hh)
+      | lost => exact lift (by simpa [matchingB] using hh)
+
+theorem matchingB_sublist (e : Nat) : ∀ (us : List (HUid × Nat)) (bs : List Br), (matchingB e us bs).Sublist (us.map (·.1)) := by
+  intro us
+  induction us with
+  | nil => intro bs; cases bs <;> simp [matchingB]
+  | cons u us ih =>
+    intro bs
+    cases bs with
+    | nil => simp [matchingB]
+    | cons b bs =>
+      cases b with
+      | single a =>
+        by_cases hae : (a == e) = true
+        · simp only [matchingB, hae, if_true, List.map_cons]; exact (ih bs).cons_cons _
+        · simp only [matchingB, hae, if_false, List.map_cons]; exact (ih bs).cons _
+      | multi _ _ => simp only [matchingB, List.map_cons]; exact (ih bs).cons _
+      | merging => simp only [matchingB, List.map_cons]; exact (ih bs).cons _
+      | lost => simp only [matchingB, List.map_cons]; exact (ih bs).cons _
+
+/-- **phase 1 of `GroupVM` on an or-group of single atoms through CoreVM's REAL `_advance_head_front`**: called with the list of branch
+    heads that wait on `match e`, it ends in the state `GroupVM.p1Brs e 0 brs` describes and hands ALL of them back (they are MERGING:
+    the merging loop of `runToCompletion` will advance them again, one by one). -/
+theorem or_group_phase1_real (fuel : Nat) (s : VM) (f : FUid) (i : Inst) (x : InstX) (cfg : FlowCfg) (l mu : String) (pe e : Nat)
+    (others : List HCore) (us : List (HUid × Nat)) (brs : List Br)
+    (F : FlowAt s f i x cfg) (hown : x.ctxOwner = none) (C : OrShape cfg l mu pe) (S : MembersShape cfg l pe us)
+    (hlen : us.length = brs.length) (hnm : noMulti brs = true) (hnd : (others.map (·.1) ++ us.map (·.1)).Nodup)
+    (hv : hview i = others ++ renderB (pe + 1) us brs)
+    (hstarted : i.status = .started) (hrange : ∀ o ∈ i.heads, o.pos < cfg.elements.size) :
+    ∃ s' i', advanceHeadFront (fuel + 3) ((matchingB e us brs).map fun h => (f, h)) s
+        = .ok ((matchingB e us brs).map fun h => (f, h)) s' ∧
+      FlowAt s' f i' x cfg ∧ s'.r = s.r ∧
+      hview i' = others ++ renderB (pe + 1) us (p1Brs e 0 brs).1 ∧ i'.status = .started := by
+  have hndv : ((hview i).map (·.1)).Nodup := by
+    rw [hv, List.map_append, renderB_fst _ _ _ hlen]; exact hnd
+  have hndu : (us.map (·.1)).Nodup := (List.nodup_append.1 hnd).2.1
+  obtain ⟨s1, i1, hreal, hrun1, F1, _, _⟩ := advanceHeadFront_branches fuel f x cfg l mu pe hown C (matchingB e us brs) s i F hstarted
+    hrange hndv ((matchingB_sublist e us brs).nodup hndu) (by
+      intro h hh
+      obtain ⟨u, hu, e1, hm⟩ := matchingB_mem e (pe + 1) us brs h hh
+      have hs := S u hu
+      exact ⟨u.2, by rw [hv, ← e1]; exact List.mem_append_right _ hm, hs.1, hs.2⟩)
+  obtain ⟨s2, i2, hrun2, F2, hr2, hv2, hst2⟩ := or_group_phase1 fuel s f i x cfg l mu pe e others us brs F hown C S hlen hnm hnd hv
+  have es : s1 = s2 := by
+    have := hrun1.symm.trans hrun2
+    injection this
+  subst es
+  have ei : i1 = i2 := Option.some.inj (F1.hi.symm.trans F2.hi)
+  subst ei
+  exact ⟨s1, i1, hreal, F2, hr2, hv2, by rw [hst2]; exact hstarted⟩
 
 end NemoVerif.CoreVM
